@@ -40,6 +40,53 @@ def gen_history(rng, n, big=True):
     return lines
 
 
+W = 2 ** 64
+MAXCAPA = (W - 1) // 8
+FAR = [2 ** 32, 2 ** 40 + 1, 2 ** 60, 2 ** 60 + 1, MAXCAPA - 1, MAXCAPA, MAXCAPA + 1, 2 ** 62, 2 ** 63 - 1, 2 ** 63, W - 2, W - 1]
+REFUSE_ALL = "s" + "f" * 80      # slot granted, every table request refused (the retry loop makes at most 66)
+
+
+def gen_extreme(rng, n):
+    """machine-word extremes: positions, counts and capacities near 2^61 (largest table that fits the word), 2^63 and
+    2^64. A table that large cannot exist, so every growth request is answered by a scripted refusal (or refused by
+    arr.c itself before the allocator is asked); counts and indices of delete/uplete/update need no memory at all."""
+    lines = ["new"]
+    for _ in range(rng.randrange(0, 6)):
+        lines.append("upsert %d %d -" % (rng.choice([0, 1, 2, 5, 63, 64, 65, 127, 128, 1000]), rng.randrange(0, 50)))
+    size_guess = 1001
+    for _ in range(n):
+        k = rng.random()
+        far = rng.choice(FAR)
+        idx = rng.choice([0, 1, 2, 5, 64, 128, 1000, 1001])
+        if k < 0.22:
+            lines.append("%s %d %d %s" % (rng.choice(["insert", "upsert"]), far, rng.randrange(0, 50), rng.choice([REFUSE_ALL, REFUSE_ALL, "f", "sf" + "f" * 70])))
+        elif k < 0.30:
+            lines.append("update %d %d -" % (far, rng.randrange(0, 50)))
+        elif k < 0.55:
+            lines.append("uplete %d %d" % (idx, rng.choice([W - 1, W - 1 - idx, W - idx, W - 2, 2 ** 63, 2 ** 63 - idx, far])))
+        elif k < 0.75:
+            lines.append("delete %d %d" % (idx, rng.choice([W - 1, W - 1 - idx, W - idx, W - 2, 2 ** 63, 2 ** 63 - idx, far])))
+        elif k < 0.80:
+            lines.append("%s %d %d" % (rng.choice(["delete", "uplete"]), far, rng.choice([0, 1, W - 1])))
+        elif k < 0.88:
+            lines.append("setcapa %d %s" % (far, "f"))
+        else:
+            lines.append("upsert %d %d -" % (rng.choice([0, 1, 2, 5, 63, 64, 65, 127, 128, 1000]), rng.randrange(0, 50)))
+    return lines
+
+
+def gen_retry(rng):
+    """the lower-the-capacity-and-retry loop of hawk_arr_insert: the first k table requests refused, then granted —
+    the capacity obtained shows in the dump (c=), so the retry sequence itself is compared with the model"""
+    lines = ["new"]
+    if rng.random() < 0.7:
+        lines.append("upsert %d 1 -" % rng.choice([0, 10, 63, 64, 100]))
+    for _ in range(rng.randrange(1, 4)):
+        pos = rng.choice([65, 100, 127, 128, 129, 200, 1000, 5000, 100000])
+        lines.append("%s %d %d s%ss" % (rng.choice(["insert", "upsert"]), pos, rng.randrange(0, 50), "f" * rng.randrange(0, 22)))
+    return lines
+
+
 def gen_heap(rng, n):
     lines = ["new"]
     sz = 0
@@ -153,6 +200,8 @@ def oracle(lines, cout):
             continue
         try:
             if w[0] in ("ppush", "pdel", "ppop", "pupd"):
+                if "word-size-not-modelled" in o:
+                    return (i, "the harness was built with a word or pointer size the model does not describe")
                 if o.startswith("offset-not-kept"):
                     return (i, "hawk_arr_getheapposoffset does not return what hawk_arr_setheapposoffset stored")
                 body = o[o.index("[") + 1:o.index("]")]
@@ -296,6 +345,21 @@ def hawk_level(ctx, libdir):
             ctx.problem("impl", "hawk-level array program disagrees with the model (%s): got %r expected %r" % (st, got[:200], exp[:200]),
                         "# run: hawk '<prog>'\n" + prog + "\n# model ops:\n" + "\n".join(model) + "\n", found_input=True)
             break
+    # subscripts no table can hold (the language admits subscripts up to 2^61 - 1): the assignment must end in an error —
+    # not in a wedge (one failing allocation per slot of the gap), a freed slot table or a signal
+    for idx in (2 ** 40 + 1, 2 ** 50, 2 ** 60, 2 ** 60 + 1, MAXCAPA - 1, MAXCAPA, 2 ** 61 - 1):
+        for pre in ("", "x[1] = 1; ", "x[70] = 1; x[3] = 2; "):
+            prog = 'BEGIN { x = hawk::array(); %sx[%d] = 1; print "stored", length(x) }' % (pre, idx)
+            t1 = time.time()
+            rc, out, err = C.sh(["timeout", "-s", "KILL", "20", hawk, prog], timeout=30, env=C.ASAN_ENV)
+            evals += 1
+            e = err.decode(errors="replace")
+            # a refused allocation makes ASan print a WARNING line; only an ERROR report is a defect
+            st = "ASAN" if "ERROR: AddressSanitizer" in e else "UBSAN" if "runtime error:" in e else "HANG" if rc in (-9, 137) else "SIG" if rc < 0 or 128 <= rc < 255 else "ok"
+            if st in ("HANG", "ASAN", "UBSAN") or st.startswith("SIG") or rc not in (0, 255) or (rc == 0 and b"stored" not in out):
+                ctx.problem("impl", "assignment to a far array subscript does not end in an error or a stored element (%s, rc=%s, %.1fs): %s" % (st, rc, time.time() - t1, prog),
+                            "# run: hawk '<prog>' (sanitized CLI built from /repo)\n" + prog + "\n# stderr:\n" + e[-2000:] + "\n", found_input=True)
+                return evals
     return evals
 
 
@@ -318,6 +382,10 @@ def run(ctx):
         lines += gen_history(rng, rng.randrange(3, 40))
     for _ in range(nhist // 3):
         lines += gen_heap(rng, rng.randrange(3, 60))
+    for _ in range(nhist // 4):
+        lines += gen_extreme(rng, rng.randrange(3, 25))
+    for _ in range(nhist // 4):
+        lines += gen_retry(rng)
     lines += exhaustive_pheap()
     for _ in range(nhist // 3):
         lines += gen_pheap(rng, rng.randrange(3, 60))
@@ -416,13 +484,13 @@ def run(ctx):
     nontriv = len({tuple(b) for b in blocks if nontrivial_signature(b)})
     samples = [" ; ".join(b[:8]) for b in blocks[ncorpus and 1 or 0:][-3:]] + [" ; ".join(blocks[len(blocks) // 2][:10])]
     return C.finish(ctx, [proof], evaluations, nontriv,
-                    "histories = corpus + all 16^3 sequences over a 16-op alphabet + seeded random histories (indices around 0/63..65/127..129/1000/10^6 and size±1, allocator refusal scripts) + random heap histories + heaps with position back-pointers (all 24 push orders of 4 keys x every delete/update/pop, and random histories) + stack push/pop + hawk-level hawk::array programs; "
+                    "histories = corpus + all 16^3 sequences over a 16-op alphabet + seeded random histories (indices around 0/63..65/127..129/1000/10^6 and size±1, allocator refusal scripts) + random heap histories + heaps with position back-pointers (all 24 push orders of 4 keys x every delete/update/pop, and random histories) + stack push/pop + machine-word extremes (positions/counts/capacities around 2^61, 2^63, 2^64 with scripted refusals) + retry-loop scripts (k refusals then a grant) + hawk-level hawk::array programs; "
                     "every op's return value, callback events and full (size,tally,capa,slot table) dump compared with the Lean model; distinct_nontrivial = distinct histories containing growth to index>=128 or a shifting delete after an insert",
                     samples, extra_cov=dict(op_distribution=dist, histories=len(blocks), impl_status=status),
                     trusted=["arr.c modelled by hand in HawkModel/Arr.lean (slot table beyond `size` not modelled; payload = small integers; INLINE copier not exercised)",
                              "heap_pos_offset back-pointers: items modelled as (key,pos) values; a slot store and its HEAP_UPDATE_POS are one model step (`stamp`), pointer aliasing inside a sift is not modelled but every dump compares each item's pos field",
                              "hawk_arr_walk/rwalk (caller-directed traversal) are not modelled"],
-                    assumptions=["allocator modelled as an oracle answering each request", "indices < 2^63"])
+                    assumptions=["allocator modelled as an oracle answering each request", "64-bit hawk_oow_t and 8-byte slot pointers (checked by the harness at start); arithmetic on positions below maxCapa = (2^64-1)/8 does not wrap (insert refuses larger ones first)"])
 
 
 def replay(ctx, path):
